@@ -278,10 +278,16 @@ func (a *Adapter) clearOrbiterBalance(ctx context.Context, denom string) error {
 		return nil
 	}
 
-	return a.bankKeeper.SendCoinsFromModuleToModule(
+	// NOTE: the coins are sent by address and not with a module to module transfer. The latter
+	// resolves the recipient through the account keeper, which panics when the account stored at
+	// the dust collector address is not a module account. Such an account can be created by
+	// anyone before the first sweep (e.g. a fee action paying that address, since a plain send
+	// creates a base account for an unknown recipient), after which every transfer of a coin
+	// with a leftover balance would abort the whole transaction.
+	return a.bankKeeper.SendCoins(
 		ctx,
-		core.ModuleName,
-		core.DustCollectorName,
+		core.ModuleAddress,
+		core.DustCollectorAddress,
 		sdk.NewCoins(coin),
 	)
 }
